@@ -45,8 +45,11 @@ CLAIMS = {
     "C03": ("Unbounded theorems (coq/Properties/C03.v, under fmt_ok): a boolean `representable` per field of the six simple "
             "sections with an Example per field; a representable edit keeps the map in the encoder's domain; reading back "
             "the rendered encoding commutes with every edit (the edited field shows exactly the edited value, every other "
-            "preserved field is unchanged; a mode edit modulo special style); edit lists by induction. Recorded: D24 "
-            "(break edited to (-0.0,+0.0)), D23 (file names that normalise to contain //). Tie to the code: `edit` "
+            "preserved field is unchanged; a mode edit modulo special style); edit lists by induction; breaks are representable "
+            "under the plain order condition D.lt end start = false within the limits, so breaks between the two zeros in "
+            "either sign order survive (Examples rep_break_zero_signs, break_zero_edit_survives). D24 (start.max(end)) was "
+            "found here and repaired (d58847e); the old behaviour is an unlisted oracle failure. Recorded: D23 (file names "
+            "that normalise to contain //). Tie to the code: `edit` "
             "correspondence (decode, edit, encode) and an oracle with per-field value generators (colons, //, commas, "
             "quotes, brackets, header-like and version-like text, non-ASCII, boundary numbers) on the real encode/decode.",
             "§6 C03"),
@@ -263,8 +266,13 @@ CLAIMS = {
             "limits, NaN); the decimal -> binary conversion is the correctly rounded (nearest-even) value of the decimal "
             "for binary64 and binary32, never NaN, zero keeps its sign, the magnitude shortcuts never change the result "
             "(T11d, via Flocq's division and normalisation theorems); clamp ranges for slider multiplier / tick rate; approach rate follows overall difficulty until "
-            "set; breaks have start <= end; background precedence; all tables and constants pinned against the generated "
-            "ones. Deviations are refuted with witnesses and recorded (D1 first-colon, D10 bookmarks, D14 f32 limit). Tie "
+            "set; a break never ends before it starts: for every break of every decoded Events, HitObjects and Beatmap value, on "
+            "any file, D.le start end = true and D.lt end start = false (C11_decoded_*_breaks); a record with end >= start "
+            "keeps its end time bit for bit, zeros included, and a record written backwards ends where it starts "
+            "(C11_break_end_kept / _reversed); background precedence; all tables and constants pinned against the generated "
+            "ones. D1 (first colon) and D24 (end computed as start.max(end), which lost the sign of a zero end) were repaired "
+            "(9215ca2, d58847e; the oracle compares break times bit for bit); deviations refuted with witnesses and recorded: "
+            "D10 bookmarks, D14 f32 limit. Tie "
             "to the code: bit-exact correspondence through the public parse_* functions over every key x value class x "
             "decoration, numeric stress streams, plus an independent table-driven reference oracle.",
             "§6 C11"),
@@ -333,7 +341,7 @@ def main():
             "enable": "harness/Cargo.toml depends on rosu-map with features=[\"verif-hooks\"]",
             "baseline_off_cmd": "cd /repo && cargo test --workspace --no-fail-fast --offline",
             "source_commits": ["f0db42e"],
-            "fix_commits": ["9215ca2", "26f4d98", "738fe2f", "4262585", "d78b06a", "fe92d4b", "0477e58", "af28242", "9dbef29", "b151c62"],
+            "fix_commits": ["9215ca2", "26f4d98", "738fe2f", "4262585", "d78b06a", "fe92d4b", "0477e58", "af28242", "9dbef29", "b151c62", "d58847e"],
             "add_only": True,
         },
         "engines": [{
